@@ -803,6 +803,11 @@ func rulePQMap(c *Ctx, r *R) {
 			if call, ok := in.(*ssa.Call); ok {
 				if cal := staticCallee(&call.Call); cal != nil && fname(cal) == name {
 					out = append(out, call)
+				} else if cal != nil {
+					// h.items.updateAt(idx, kp), a forwarder of the package's own heap wrapper to the inner heap's UpdateAt
+					if t := thinForwardTarget(cal); t != nil && fname(t) == name {
+						out = append(out, call)
+					}
 				}
 				if bi, ok := call.Call.Value.(*ssa.Builtin); ok && bi.Name() == name {
 					out = append(out, call)
@@ -921,8 +926,14 @@ func rulePQMap(c *Ctx, r *R) {
 		pfu := &PF{N: 2}
 		pfu.Instr = func(_ *ssa.Function, in ssa.Instruction, q int) (StateSet, bool) {
 			if call, ok := in.(*ssa.Call); ok {
-				if cal := staticCallee(&call.Call); cal != nil && (fname(cal) == "UpdateAt" || fname(cal) == "Push") {
-					return ss(1), true
+				if cal := staticCallee(&call.Call); cal != nil {
+					nm := fname(cal)
+					if t := thinForwardTarget(cal); t != nil {
+						nm = fname(t)
+					}
+					if nm == "UpdateAt" || nm == "Push" {
+						return ss(1), true
+					}
 				}
 			}
 			return 0, false
